@@ -9,6 +9,7 @@ import Mitx.Driver.Tol
 import Mitx.Driver.SumG
 import Mitx.Driver.Safety
 import Mitx.Driver.Restrict
+import Mitx.Driver.Comparers
 open Lean
 
 def dispatch (op : String) (j : Json) : Except String Json :=
@@ -29,6 +30,13 @@ def dispatch (op : String) (j : Json) : Except String Json :=
   | "sum" => Drv.sumOp j
   | "brackets" => Drv.brackets j
   | "restrict" => Drv.restrict j
+  | "cmp_between" => Drv.cmpBetween j
+  | "cmp_congruence" => Drv.cmpCongruence j
+  | "cmp_eigen" => Drv.cmpEigen j
+  | "cmp_span" => Drv.cmpSpan j
+  | "cmp_phase" => Drv.cmpPhase j
+  | "cmp_entry" => Drv.cmpEntry j
+  | "cmp_linear" => Drv.cmpLinear j
   | "ensure_text" => Drv.ensureTextOp j
   | "matrix_recast" => Drv.matrixRecastOp j
   | "sum_positions" => Drv.sumPositions j
